@@ -70,7 +70,7 @@ func classifyEnum(c *Ctx, pk, typ string) *enumShape {
 			case s == "[]byte("+ex(lk)+"#0)":
 				// must be on the ok edge
 				for _, iff := range ifsIn(m) {
-					if ex(iff.Cond) == ex(lk)+"#1" && edgeMustPass(m, edge{iff.Block(), iff.Block().Succs[0]}, ret.Block()) {
+					if tb, _, hit := succWhen(iff, ex(lk)+"#1"); hit && edgeMustPass(m, edge{iff.Block(), tb}, ret.Block()) {
 						okName = true
 					}
 				}
